@@ -61,6 +61,46 @@ def _search_batch(job):
     return out
 
 
+def _via_config(job):
+    """the same, with the pattern taken through the config loader: written as a file pattern into a setup.cfg / bumpver.toml, loaded, and the loaded Pattern's regexp applied"""
+    out = []
+    from bumpver import config
+    for syntax, pat, lines in job:
+        try:
+            P = glue.parse_pattern(pat, file_pattern=True)
+        except glue.OutsideGrammar as ex:
+            out.append(dict(unclassified=str(ex), pat=pat, kind="via-" + syntax))
+            continue
+        with drive.scratch_dir("c07cfg") as d:
+            if syntax == "cfg":
+                text = "[bumpver]\ncurrent_version = 2021.5\nversion_pattern = YYYY.MM\n\n[bumpver:file_patterns]\nf.txt =\n    %s\n" % pat
+                name = "setup.cfg"
+            else:
+                text = "[bumpver]\ncurrent_version = \"2021.5\"\nversion_pattern = \"YYYY.MM\"\n\n[bumpver.file_patterns]\n\"f.txt\" = [%s]\n" % project.toml_str(pat)
+                name = "bumpver.toml"
+            with open(os.path.join(d, name), "w", encoding="utf-8") as f:
+                f.write(text)
+            with open(os.path.join(d, "f.txt"), "w") as f:
+                f.write("x\n")
+            cwd = os.getcwd()
+            os.chdir(d)
+            try:
+                _c, cfg = config.init(project_path=".")
+                pats = [p for p in cfg.file_patterns.get("f.txt", [])] if cfg is not None else None
+            except Exception as ex:  # pylint:disable=broad-except
+                pats = None
+            finally:
+                os.chdir(cwd)
+        if not pats or len(pats) != 1:
+            out.append(dict(unclassified="config not loaded / not exactly one pattern for f.txt", pat=pat, kind="via-" + syntax))
+            continue
+        for line in lines:
+            m = pats[0].regexp.search(line)
+            out.append(dict(ev="search", P=P, line=glue.cp(line), hit=list(m.span()) if m else [-1, -1], pat=pat, kind="via-" + syntax,
+                            dbg="%r (through %s) on %r" % (pat, name, line)))
+    return out
+
+
 def _grep_case(job):
     """end to end: which lines does `bumpver grep` report (matches placed from line 2 on: a match on line 1 of a longer file trips the unrelated defect S11)"""
     lit, idx = job
@@ -149,6 +189,18 @@ def run(ctx):
     events = []
     for part in drive.pmap(_search_batch, jobs, hooks=False):
         events += part
+    # a sample of the wrapped patterns once more through the config loaders (INI syntax cannot express every literal: blanks at the ends, a leading # or ;)
+    cjobs = []
+    wrapped = [b for job in jobs for b in job if b[0] == "wrapped"]
+    for k, (_kind, pat, lines) in enumerate(wrapped[:ctx.pick(600, 8000)]):
+        quoted = ['"' + pat + '"', "'" + pat + "'"][k % 2] if k % 4 == 0 else pat       # a pattern wholly enclosed in quotes keeps them: they are literal text
+        qlines = [ln if quoted == pat else quoted[0] + ln + quoted[0] for ln in lines] + ([lines[0]] if quoted != pat else [])
+        syntax = "cfg" if k % 2 == 0 else "toml"
+        if syntax == "cfg" and (quoted != quoted.strip() or quoted[:1] in "#;" or "\n" in quoted or "%" in quoted):
+            syntax = "toml"
+        cjobs.append((syntax, quoted, qlines))
+    for part in drive.pmap(_via_config, [cjobs[i:i + 40] for i in range(0, len(cjobs), 40)], hooks=False):
+        events += part
     uncl = [e for e in events if "unclassified" in e]
     events = [e for e in events if "unclassified" not in e]
     ctx.count("unclassified_patterns", len(uncl))
@@ -156,7 +208,7 @@ def run(ctx):
         ctx.divergence("unclassified pattern", u)
     for i, e in enumerate(events):
         e["id"] = i + 1
-    for k in ("alone", "wrapped", "twice", "anchored"):
+    for k in ("alone", "wrapped", "twice", "anchored", "via-cfg", "via-toml"):
         ctx.count("events_" + k, sum(1 for e in events if e["kind"] == k))
     fails, st = tlc.validate_events("Trace_Text", [{k: v for k, v in e.items() if k not in ("pat", "kind")} for e in events], name="C07")
     ctx.add_trace(st)
@@ -188,7 +240,7 @@ def run(ctx):
     ctx.evaluations = len(events) + n_grep
     for e in events:
         ctx.nontriv((e["pat"], tuple(e["line"])))
-    ctx.rule = ("every literal over 69 symbols up to length %d plus seeded literals up to length 40 (30%% regex metacharacters), alone, wrapped around YYYY.MM, between two occurrences of the same parts, and anchored; "
+    ctx.rule = ("every literal over 69 symbols up to length %d plus seeded literals up to length 40 (30%% regex metacharacters), alone, wrapped around YYYY.MM, between two occurrences of the same parts, anchored, and a sample written into setup.cfg / bumpver.toml and loaded through the config loader; "
                 "each against lines within edit distance 1; `bumpver grep` end to end on a sample; non-trivial = distinct (pattern, line)" % N)
     ctx.exhaustive = False
     for e in events[1000:1003]:
